@@ -275,6 +275,7 @@ PF_HOSTILE = gen.Profile(
     container_work=True,
     dated_containers=True,
     unaligned_pins=True,
+    milestones=True,
     weeks=(1, 6),
     max_slots=20,
     glob_leaves=True,
